@@ -25,6 +25,9 @@ PARSER_FIELDS = {
     "canceled_balancing": ("RESET", ["self->canceled_balancing = 0"], []),
     "parse_options": ("RESET", ["self->parse_options = _"], []),
     "parse_state": ("RESET", ["self->parse_state = _"], []),
+    "resume_position": ("RESET", ["self->resume_position = 0"], []),
+    "resume_last_position": ("RESET", ["self->resume_last_position = 0"], []),
+    "resume_version": ("RESET", ["self->resume_version = 0"], []),
     "operation_count": ("PARSE-START", "set to 0 by ts_parser_parse before the loop on every call"),
     "included_range_differences": ("FRESH-START", "cleared and recomputed when a new parse starts (not on resume)"),
     "included_range_difference_index": ("FRESH-START", "reset when a new parse starts (not on resume)"),
@@ -254,6 +257,162 @@ def rule_p4(ctx, F):
             ctx.bad("P4", "ts_parser__lex:state-compare-reads-clobbered-buffer", "ts_parser__lex: %s" % v2.msg)
 
 
+def elem_effects(e):
+    """(uses, defs) of locals by one CFG element, in that order: ids read, then (id, rhs-or-None) written."""
+    uses, defs, lhs = [], [], set()
+    for n in own_walk(e):
+        k = n.get("k")
+        if k == "assign" and strip(n["l"]).get("k") == "ref" and strip(n["l"]).get("dk", "local") in ("local", "param"):
+            if n["op"] == "=":
+                lhs.add(id(strip(n["l"])))
+            defs.append((strip(n["l"])["id"], n["r"] if n["op"] == "=" else None))
+        elif k == "un" and n["op"] in ("post++", "post--", "pre++", "pre--") and strip(n["e"]).get("k") == "ref":
+            defs.append((strip(n["e"])["id"], None))
+        elif k == "decl" and n.get("init") is not None:
+            defs.append((n["id"], n["init"]))
+        elif k == "decls":
+            for d in n["ds"]:
+                if d.get("init") is not None:
+                    defs.append((d["id"], d["init"]))
+    for n in own_walk(e):
+        if n.get("k") == "ref" and id(n) not in lhs and "id" in n:
+            uses.append(n["id"])
+    return uses, defs
+
+
+def live_before(fn, pt):
+    """Locals live just before point `pt` (backward may-liveness, element granularity inside pt's block)."""
+    eff = {b.id: [elem_effects(el["e"]) if el.get("e") is not None else ([], []) for el in b.elems] for b in fn.blocks.values()}
+
+    def through(bid, live, start=0):
+        live = set(live)
+        for uses, defs in reversed(eff[bid][start:]):
+            for i, rhs in defs:
+                if rhs is not None:
+                    live.discard(i)
+            live |= set(uses)
+        return live
+    live_in = {b: set() for b in fn.blocks}
+    changed = True
+    while changed:
+        changed = False
+        for b in fn.blocks.values():
+            out = set()
+            for ed in b.succs:
+                if ed.to in live_in:
+                    out |= live_in[ed.to]
+            new = through(b.id, out)
+            if new != live_in[b.id]:
+                live_in[b.id], changed = new, True
+    out = set()
+    for ed in fn.blocks[pt[0]].succs:
+        if ed.to in live_in:
+            out |= live_in[ed.to]
+    return through(pt[0], out, pt[1])
+
+
+def reaching_before(fn, pt, cut=False):
+    """Definitions of locals that may reach point `pt`: {local id: set of definition points}.  With `cut`, only along
+    paths that arrive at pt for the first time (the block holding pt has its outgoing edges removed)."""
+    eff = {b.id: [elem_effects(el["e"]) if el.get("e") is not None else ([], []) for el in b.elems] for b in fn.blocks.values()}
+
+    def through(bid, rd, stop=None):
+        rd = {k: set(v) for k, v in rd.items()}
+        for i, (uses, defs) in enumerate(eff[bid]):
+            if stop is not None and i >= stop:
+                break
+            for vid, rhs in defs:
+                rd[vid] = {(bid, i)}
+        return rd
+    reach, todo = {fn.entry}, [fn.entry]
+    while todo:
+        x = todo.pop()
+        if cut and x == pt[0]:
+            continue
+        for ed in fn.blocks[x].succs:
+            if ed.to in fn.blocks and ed.to not in reach:
+                reach.add(ed.to)
+                todo.append(ed.to)
+    rd_in = {b: {} for b in fn.blocks}
+    changed = True
+    while changed:
+        changed = False
+        for b in fn.blocks.values():
+            acc = {}
+            for ed in b.preds:
+                if ed.src not in reach or (cut and ed.src == pt[0]):
+                    continue
+                for k, v in through(ed.src, rd_in[ed.src]).items():
+                    acc.setdefault(k, set()).update(v)
+            if acc != rd_in[b.id]:
+                rd_in[b.id], changed = acc, True
+    return through(pt[0], rd_in[pt[0]], pt[1])
+
+
+def rule_p6(ctx, F):
+    """P6: a cancelled parse loses no scheduling state.  ts_parser_parse is left by `return NULL` when
+    ts_parser__advance reports cancellation, and the resuming call runs the function again from the top until it
+    arrives at that call.  A local that is live at the call and whose value there can come from a definition that is
+    only reachable after an earlier advance (it differs between 'all paths' and 'first arrival') carries state across
+    the cancellation: the resuming call must restore it from the parser object, which must have been saved before the return."""
+    fn = ctx.need_fn(F, "ts_parser_parse", "P6")
+    if not fn:
+        return
+    adv = [pt for pt, c in fn.calls() if callee_name(c) == "ts_parser__advance"]
+    if len(adv) != 1:
+        ctx.bad("P6", "ts_parser_parse:advance-call", "ts_parser_parse is expected to call ts_parser__advance at exactly one site (found %d)" % len(adv))
+        return
+    C = adv[0]
+    fn.defs(0)
+    live = live_before(fn, C)
+    from flow import dominators, reachable_blocks
+    dom = dominators(fn)
+    scc = {b for b in reachable_blocks(fn, C[0]) if C[0] in reachable_blocks(fn, b)}      # the loops around the call
+
+    def carried_at(i, pt, depth=0):
+        """Can the value of local i at pt differ between an uninterrupted run and a run that re-entered the function?"""
+        ds = reaching_before(fn, pt).get(i, set())
+        if not any(d[0] in scc for d in ds):
+            return False                        # only definitions from before the loops: re-executed identically
+        if len(ds) > 1 or depth > 4:
+            return True                         # which definition applies depends on the iterations already made
+        (d,) = ds
+        if not (d[0] in dom.get(pt[0], ()) ):
+            return True
+        uses = [u for u in elem_effects(fn.blocks[d[0]].elems[d[1]]["e"])[0] if u != i]
+        return any(carried_at(u, d, depth + 1) for u in uses)
+    rd_all = reaching_before(fn, C)
+    carried = sorted(i for i in live if fn._names.get(i) != "self" and carried_at(i, C))
+    ctx.analysed["ts_parser_parse_locals_live_at_advance"] = sorted(fn._names.get(i, "?") for i in live)
+    ctx.analysed["ts_parser_parse_locals_carried_across_advance"] = sorted(fn._names.get(i, "?") for i in carried)
+    rets = [pt for pt, e in fn.points() if e.get("k") == "ret" and e.get("e") is not None and strip(e["e"]).get("k") in ("null", "int") and not strip(e["e"]).get("v")]
+    cancel = [pt for pt in rets if C[0] in dom.get(pt[0], ()) and pt[0] != C[0]]
+    ctx.floor("`return NULL` after a cancelled ts_parser__advance", len(cancel), 1)
+    for i in carried:
+        nm = fn._names.get(i, "?")
+        key = "ts_parser_parse:%s-survives-cancellation" % nm
+        restore = []
+        for (b, k) in sorted(rd_all.get(i, ())):
+            for vid, rhs in elem_effects(fn.blocks[b].elems[k]["e"])[1]:
+                r = strip(rhs) if rhs is not None else None
+                if vid == i and r is not None and r.get("k") == "mem" and show(r).startswith("self->"):
+                    restore.append(((b, k), r))
+        if not restore:
+            ctx.bad("P6", key, "`%s` is live when ts_parser_parse calls ts_parser__advance and its value there depends on earlier iterations (%s), but a resuming call re-enters the loop with the "
+                    "initialiser: a parse cancelled by the progress callback and resumed schedules its stack versions differently from an uninterrupted one and can recover from errors differently"
+                    % (nm, ", ".join(sorted(fn.loc(d) for d in rd_all[i] if d[0] in scc))), {"local": nm})
+            continue
+        fld = restore[0][1]["f"]
+        save = [pt for pt, n in find(fn, "self->%s = %s" % (fld, nm))]
+        ctx.gate("P6", fn, [pt for pt, r in restore], [("`%s` is restored only when an interrupted parse is resumed" % nm, [("ts_parser_has_outstanding_parse(self)", True), ("is_resuming", True)])],
+                 accept_desc="restoring `%s` from self->%s" % (nm, fld))
+        if save and cancel:
+            ctx.before("P6", key, fn, cancel, save, "`%s` is saved to self->%s before the cancelled call returns" % (nm, fld))
+        else:
+            ctx.bad("P6", key, "`%s` is restored from self->%s on resume but not saved before the cancelling `return NULL`" % (nm, fld))
+    ctx.floor("locals live at the ts_parser__advance call", len(live), 3)
+
+
 def rule_p5(ctx, F):
     """P5: chunking and encoding.  A chunk is always requested for the lexer's current position; the
     decoder is the one of the declared encoding; the ASCII short-cut applies to UTF-8 only; the chunk is
@@ -305,7 +464,8 @@ def run(ctx):
         rule_p2(ctx, F)
         rule_p4(ctx, F)
         rule_p5(ctx, F)
+        rule_p6(ctx, F)
     return ctx.finish(
-        "Field-coverage and ordering rules over parser.c/lexer.c: each of TSParser's 24 fields is classified and every RESET field is re-initialised on all paths "
+        "Field-coverage and ordering rules over parser.c/lexer.c: each of TSParser's fields is classified and every RESET field is re-initialised on all paths "
         "of ts_parser_reset; completion and language change pass ts_parser_reset; a resumed parse stores to no parser state before the loop; a new input discards "
         "the cached chunk. Decides state discipline, not equality of trees across chunkings, encodings or cancellation points.")
